@@ -179,6 +179,22 @@ class IsoDepInitiator(object):
                     log.error("ISO-DEP unrecoverable protocol error")
                     raise Type4TagCommandError(nfc.tag.PROTOCOL_ERROR)
 
+            while data[0] & 0b11111110 == 0b11110010:  # WTX
+                log.debug("ISO-DEP waiting time extension")
+                if len(data) < 2:
+                    log.error("ISO-DEP protocol error: wtx without value")
+                    raise Type4TagCommandError(nfc.tag.PROTOCOL_ERROR)
+                try:
+                    data = self.clf.exchange(data, (data[1] & 0x3F) * self.fwt)
+                except nfc.clf.TimeoutError:
+                    raise Type4TagCommandError(nfc.tag.TIMEOUT_ERROR)
+                except nfc.clf.TransmissionError:
+                    raise Type4TagCommandError(nfc.tag.RECEIVE_ERROR)
+                except nfc.clf.ProtocolError:
+                    raise Type4TagCommandError(nfc.tag.PROTOCOL_ERROR)
+                if len(data) == 0:
+                    raise Type4TagCommandError(nfc.tag.RECEIVE_ERROR)
+
             if data[0] & 0x01 != self.pni:
                 log.error("ISO-DEP protocol error: block number")
                 raise Type4TagCommandError(nfc.tag.PROTOCOL_ERROR)
